@@ -20,6 +20,8 @@ def to_rust(a):
     k = a[0]
     if k == "lit":
         return "".join(esc_char(c) for c in a[1])
+    if k == "cls" and a[2] and list(a[1]) == [(10, 10)]:
+        return "."                      # DOT: any character except line feed
     if k == "cls":
         body = "".join((cp_esc(lo) if lo == hi else cp_esc(lo) + "-" + cp_esc(hi)) for lo, hi in a[1])
         return "[" + ("^" if a[2] else "") + body + "]"
